@@ -13,6 +13,7 @@ import (
 	"os"
 	"strconv"
 	"strings"
+	"syscall"
 	"time"
 
 	"go.uber.org/multierr"
@@ -28,12 +29,13 @@ import (
 )
 
 type rsink struct {
-	buf   []byte
-	syncs int
+	buf     []byte
+	syncs   int
+	syncErr error // what Sync reports (nil for a healthy sink)
 }
 
 func (s *rsink) Write(p []byte) (int, error) { s.buf = append(s.buf, p...); return len(p), nil }
-func (s *rsink) Sync() error                 { s.syncs++; return nil }
+func (s *rsink) Sync() error                 { s.syncs++; return s.syncErr }
 
 type env struct {
 	family string
@@ -56,7 +58,7 @@ type env struct {
 	sinks    []*rsink
 }
 
-var families = []string{"io", "tee", "sampler", "hooked", "increase", "lazy", "observer", "buffered", "console", "combine1"}
+var families = []string{"io", "tee", "sampler", "hooked", "increase", "lazy", "observer", "buffered", "console", "combine1", "ttylike"}
 
 func build(family string, warm int) *env {
 	oorNext += 8 // build runs before the threads start
@@ -81,6 +83,10 @@ func build(family string, warm int) *env {
 		ccfg := zap.NewDevelopmentEncoderConfig()
 		ccfg.EncodeLevel = zapcore.CapitalColorLevelEncoder // the colour encoders keep package-level lookup tables
 		core = zapcore.NewCore(zapcore.NewConsoleEncoder(ccfg), zapcore.Lock(newSink()), e.AL)
+	case "ttylike": // a locked sink whose Sync reports EINVAL, as stderr does on a terminal or pipe (the sync after every entry above Error hits it)
+		ts := newSink()
+		ts.syncErr = syscall.EINVAL
+		core = zapcore.NewCore(enc(), zapcore.Lock(ts), e.AL)
 	case "combine1": // a single destination behind CombineWriteSyncers: documented to be locked like several
 		core = zapcore.NewCore(enc(), zap.CombineWriteSyncers(newSink()), e.AL)
 	case "tee":
